@@ -24,8 +24,15 @@ var (
 	lagPos  int
 )
 
+// The probe runs from process start: a verdict must never find it without samples for the period it asks
+// about (a child worker's first case did, at load average 300, and a time-out was reported as a refusal).
+func init() { startLagProbe() }
+
+var lagStarted time.Time
+
 func startLagProbe() {
 	lagOnce.Do(func() {
+		lagStarted = time.Now()
 		go func() {
 			for {
 				t0 := time.Now()
@@ -49,6 +56,10 @@ func MaxLagSince(t time.Time) time.Duration {
 	defer lagMu.Unlock()
 	var worst time.Duration
 	var last time.Time
+	if lagPos == 0 && time.Since(lagStarted) > 2*time.Millisecond+Responsive {
+		// the probe goroutine has not produced a single sample although it had time to: that is lag
+		return time.Since(lagStarted)
+	}
 	n := min(lagPos, len(lagRing))
 	for i := 0; i < n; i++ {
 		s := lagRing[(lagPos-1-i)%len(lagRing)]
